@@ -3,10 +3,14 @@
     Model: Model/PubSub.v (the Go module after the C18 fixes: channel objects found by name *and*
     kind, one ordered queue and one writer goroutine per connection, recipients fixed when PUBLISH
     runs).  Reference: Spec/SpecPubSub.v.  [glob_ok] / [glob_match] are parameters throughout.
+    First the delivery theorems (lists only), then the table: the model's list of channel objects
+    refines the reference's [gset (conn * target)] for every command and every history
+    ([C18_table_refines], [C18_introspection]; proofs in Proofs/PubSubProofs.v, Proofs/PubSubTable.v).
     A history is any list of events; [EWrite c] is one step of connection c's writer goroutine, so
     quantifying over histories quantifies over every schedule of the deliveries. *)
 From Coq Require Import String List Bool Arith.
-From EV Require Import Base.Str Model.Reply Model.PubSub Spec.SpecPubSub Proofs.PubSubDeliver Proofs.PubSubProofs.
+From EV Require Import Base.Str Model.Reply Model.PubSub Spec.SpecPubSub Proofs.PubSubDeliver Proofs.PubSubProofs
+  Proofs.PubSubTable.
 Import ListNotations.
 
 Section C18.
@@ -53,27 +57,134 @@ Print Assumptions C18_deliver_complete.
 Print Assumptions C18_fifo.
 
 Local Open Scope string_scope.
+Local Open Scope list_scope.
 
+(** * The table: the model's list of channel objects implements the reference's set of
+    (connection, target) pairs — every command, every history. *)
+Section C18_table.
+Variable glob_ok : string -> bool.
+Variable glob_match : string -> string -> bool.
 
-(** The table.  Full statements (checked differentially against the extracted reference on every run, proved
-    here only for the subscribe family):
+(** For every history of (P)SUBSCRIBE / (P)UNSUBSCRIBE / PUBLISH / PUBSUB CHANNELS, NUMPAT, NUMSUB
+    commands and writer-goroutine steps (no connection goes away: see [C18_close_refuted]) from every
+    pair of a well-formed model table and a reference state describing the same table ([R]: subs =
+    abs table, ord = targets in creation order): the replies (UNSUBSCRIBE confirmations with their
+    numbers, introspection answers, PUBLISH's reply) are the reference's, the frames queued for every
+    connection (SUBSCRIBE confirmations with the running count, messages) are those the reference
+    owes it, in the same order, and [R] holds again at the end. *)
+Theorem C18_table_refines : forall evs m s,
+  R m s -> forallb not_close evs = true ->
+  let '(m', rs) := m_run glob_ok glob_match m evs in
+  let '(s', rs', owed) := s_run glob_ok glob_match s evs in
+  rs = rs' /\ (forall c, emitted glob_ok glob_match m evs c = owed c) /\ R m' s'.
+Proof. exact (table_refines glob_ok glob_match). Qed.
 
-      C18_table_refines : forall evs without EClose, the replies of [m_run ps_init evs] are those of
-        [s_run sst_init evs], the frames queued for every connection are those the reference owes it, and
-        [R] (same table: subs = abs table, ord = targets in creation order) holds at the end;
-      C18_introspection : under [R m s], m_channels / m_numpat / m_numsub on [table m] = s_channels /
-        s_numpat / s_numsub on [s].
+(** From the empty table, with the delivery invariant: after every such history what a connection
+    has received followed by what is still queued for it is what the reference owes it. *)
+Theorem C18_table_refines_init : forall evs,
+  forallb not_close evs = true ->
+  let '(m', rs) := m_run glob_ok glob_match ps_init evs in
+  let '(s', rs', owed) := s_run glob_ok glob_match sst_init evs in
+  rs = rs' /\ (forall c, received m' c ++ outbox m' c = owed c) /\ R m' s'.
+Proof. exact (table_refines_init glob_ok glob_match). Qed.
 
-    Proved: (P)SUBSCRIBE — for every argument list, from every well-formed table, the confirmations
-    (with the running count = number of (connection, target) pairs of that connection in the set) and
-    the resulting table are the reference's. *)
-Theorem C18_table_refines_partial : forall p c names t S o,
+(** The per-command facts behind it, for every argument vector from every well-formed table. *)
+Theorem C18_subscribe_refines : forall p c names t S o,
   wf t -> S = abs t -> o = List.map tgt t ->
   let '(t', fs) := subscribe_loop p c names t in
   let '(s', fs') := s_subscribe p c names (MkS S o) in
   fs = fs' /\ wf t' /\ subs s' = abs t' /\ ord s' = List.map tgt t'.
 Proof. exact subscribe_refines. Qed.
-Print Assumptions C18_table_refines_partial.
+
+(** (P)UNSUBSCRIBE, all argument vectors (none = all of that kind, names the connection is not
+    subscribed to, duplicates): the reply and the table afterwards are the reference's. *)
+Theorem C18_unsubscribe_refines : forall pat c names t S o,
+  wf t -> S = abs t -> o = List.map tgt t ->
+  unsub_reply pat (unsub_dropped pat c names t)
+    = unsub_reply pat (List.map tname (s_unsub_dropped pat c names (MkS S o))) /\
+  wf (unsub_table pat c names t) /\
+  s_unsub_subs pat c names S = abs (unsub_table pat c names t) /\
+  o = List.map tgt (unsub_table pat c names t).
+Proof. exact unsub_refines. Qed.
+
+(** ... the reference's table afterwards being: exactly the named (or all) subscriptions of that
+    kind of that connection are gone, every other pair stays. *)
+Theorem C18_unsubscribe_drops_exactly : forall pat c names S c' T,
+  stdpp.base.elem_of (c', T) (s_unsub_subs pat c names S) <->
+  stdpp.base.elem_of (c', T) S /\
+  ~ (c' = c /\ is_pat T = pat /\ (names = [] \/ stdpp.base.elem_of (tname T) names)).
+Proof. exact unsub_subs_spec. Qed.
+
+(** PUBLISH against the reference: the model's search (the channel object of that name, then the
+    matching pattern objects) selects exactly the connections the set-based [recipient] names ... *)
+Theorem C18_recipients_refine : forall chn t c,
+  recipient glob_match (abs t) chn c <->
+  exists ch, find (fun ch => mem c (ch_subs ch)) (pub_objs glob_match chn t) = Some ch.
+Proof. exact (recipients_refine glob_match). Qed.
+
+(** ... so a PUBLISH queues exactly one message frame, under the name of one of its matching
+    subscriptions, for every connection that is at that moment subscribed to the channel or to a
+    pattern matching it, and nothing for any other connection (C18_publish_exactly_once_current_only
+    restated over the set) ... *)
+Theorem C18_publish_recipients : forall chn msg t c,
+  (recipient glob_match (abs t) chn c ->
+     exists T, stdpp.base.elem_of (c, T) (abs t) /\ tmatch glob_match chn T = true /\
+               proj c (publish_pushes glob_match chn msg t) = [FMsg (tname T) msg]) /\
+  (~ recipient glob_match (abs t) chn c -> proj c (publish_pushes glob_match chn msg t) = []).
+Proof. exact (publish_recipients glob_match). Qed.
+
+(** ... and it is the reference's frame. *)
+Theorem C18_publish_refines : forall chn msg t c,
+  wf t ->
+  proj c (publish_pushes glob_match chn msg t) = s_publish_out glob_match (MkS (abs t) (List.map tgt t)) chn msg c.
+Proof. exact (publish_refines glob_match). Qed.
+
+(** PUBSUB CHANNELS [pattern] / NUMPAT / NUMSUB are the reference's functions of the set. *)
+Theorem C18_introspection : forall m s,
+  R m s ->
+  (forall arg, m_channels glob_ok glob_match arg (table m) = s_channels glob_ok glob_match arg s) /\
+  m_numpat (table m) = s_numpat s /\
+  (forall names, m_numsub names (table m) = s_numsub names s).
+Proof. exact (introspection_refines glob_ok glob_match). Qed.
+
+End C18_table.
+Print Assumptions C18_table_refines.
+Print Assumptions C18_table_refines_init.
+Print Assumptions C18_subscribe_refines.
+Print Assumptions C18_unsubscribe_refines.
+Print Assumptions C18_unsubscribe_drops_exactly.
+Print Assumptions C18_recipients_refine.
+Print Assumptions C18_publish_recipients.
+Print Assumptions C18_publish_refines.
+Print Assumptions C18_introspection.
+
+(** NUMSUB counts subscriptions, not clients: the channel object and the pattern object of one name
+    are added (pubsub.go NumSub; Test_HandleSubscribe pins that a pattern's subscribers are counted),
+    so one connection holding both is counted twice — the documentation's "how many clients are
+    subscribed to the channel" would say 1.  Adopted; the witness: *)
+Example C18_numsub_counts_subscriptions :
+  snd (m_run glob_ok_frag glob_match_frag ps_init [ESub false 1 ["a"]; ESub true 1 ["a"]; ENumSub ["a"]])
+  = [REmpty; REmpty; RArr [RArr [RBulk "a"; RInt 2]]].
+Proof. vm_compute. reflexivity. Qed.
+
+(** Non-vacuity of the table theorems: the reference on a history with an UNSUBSCRIBE naming an unknown
+    channel and one channel twice, a PUNSUBSCRIBE and an UNSUBSCRIBE without arguments, introspection
+    in between, and two publishes (by [C18_table_refines_init] the model answers the same). *)
+Example C18_table_example :
+  let evs := [ESub false 1 ["a"; "b"]; ESub true 1 ["a"]; ESub false 2 ["b"];
+              EUnsub false 1 ["zz"; "b"; "b"]; ENumSub ["a"; "b"]; EUnsub true 2 []; EUnsub false 1 [];
+              EChannels None; ENumPat; EPublish 0 "b" "m"; EPublish 0 "a" "n"] in
+  let '(_, rs, owed) := s_run glob_ok_frag glob_match_frag sst_init evs in
+  rs = [REmpty; REmpty; REmpty;
+        RArr [RArr [RSimple "unsubscribe"; RBulk "b"; RInt 1]];
+        RArr [RArr [RBulk "a"; RInt 2]; RArr [RBulk "b"; RInt 1]];
+        RArr [];
+        RArr [RArr [RSimple "unsubscribe"; RBulk "a"; RInt 1]];
+        RArr [RBulk "b"; RBulk "a"]; RInt 1; ROk; ROk] /\
+  owed 1 = [FConfirm "subscribe" "a" 1; FConfirm "subscribe" "b" 2; FConfirm "psubscribe" "a" 3; FMsg "a" "n"] /\
+  owed 2 = [FConfirm "subscribe" "b" 1; FMsg "b" "m"] /\
+  snd (m_run glob_ok_frag glob_match_frag ps_init evs) = rs.
+Proof. vm_compute. repeat split. Qed.
 
 (** With a connection that goes away the unguarded statement is false: the code leaves the table alone. *)
 Theorem C18_close_refuted : exists evs,
